@@ -33,6 +33,7 @@ SPEC = {
     "prop": "C16",
     "lean_targets": ["InfernoVerif.Props.C16", "InfernoVerif.Props.C16GlueProg"],
     "translate": ["HookProg"],
+    "driver_targets": ["InfernoVerif.Model.Hooks", "InfernoVerif.Drv.Proto"],
     "prop_files": ["InfernoVerif/Props/C16.lean", "InfernoVerif/Props/C16GlueProg.lean"],
     "lemma_files": ["InfernoVerif/Lemmas/Hooks.lean", "InfernoVerif/Lemmas/HooksReal.lean"],
     "model_files": ["InfernoVerif/Model/Hooks.lean"],
